@@ -153,6 +153,7 @@ class Repo:
 
     def _load(self, extra_dirs) -> None:
         seen = set()
+        parsed = []
         for rel in list(self._iter_files(extra_dirs)) + sorted(self.overlay):
             if rel in seen:
                 continue
@@ -166,10 +167,25 @@ class Repo:
                 tree = ast.parse(src, filename=rel)
             except SyntaxError as e:
                 raise AnalysisError(f"{rel} does not parse: {e}")
+            parsed.append((rel, src, tree))
+        sigs = None
+        self.canon_counts = {}
+        if INLINE:
+            from . import canon as _canon
+
+            sigs = _canon.Sigs()
+            for rel, src, tree in parsed:
+                if rel.startswith(PKG) and not rel.startswith(PKG + "/resources"):
+                    sigs.add_tree(tree)
+        for rel, src, tree in parsed:
             inlined = []
             if INLINE and rel.startswith(PKG):
                 from .inline import inline_new_helpers, canonicalise_accumulate_loops, renest_lifted
 
+                cn = _canon.canonicalise(tree, sigs)
+                for k, v in cn.items():
+                    if v:
+                        self.canon_counts[k] = self.canon_counts.get(k, 0) + v
                 renested = renest_lifted(tree, rel)
                 inlined = [(f"renested {x} <- {g}", 0) for x, g in renested] + inline_new_helpers(tree, rel)
                 canonicalise_accumulate_loops(tree)
